@@ -430,6 +430,12 @@ def do_decode(ns: dict, step: dict):
     obj, meth = step["call"].split(".")
     fn = getattr(ns[obj], meth)
     inp = step["input"]
+    if "arg" in step:                      # full argument + the holder field to look at (two-tagger probe)
+        try:
+            r = fn(step["arg"])
+        except Exception as e:  # noqa: BLE001 - classified below
+            return (unwrap_exc(e),)
+        return ("inst", type(getattr(r, step["pick"])).__name__)
     if step["wrap"] == "v":
         arg = {"v": inp}
     elif step["wrap"] == "vlist":
@@ -781,6 +787,66 @@ def check_site_ok(ctx: vlib.Ctx):
 
 
 # ---------------------------------------------------------------------------
+# several discriminated fields with different variant_tagger_fn in ONE holder
+# (region of known finding C12/tagger-fn-name-collision; reported by the C17 engineer)
+# ---------------------------------------------------------------------------
+
+def probe_two_taggers(ctx: vlib.Ctx, n: int):
+    rng = ctx.rng
+    for _ in range(n):
+        k = rng.choice([2, 2, 3])
+        same = rng.random() < 0.25           # all fields share one function: must work
+        src = ""
+        nsub = []
+        for i in range(k):
+            src += f"def tg{i}(cls):\n    return 'p{0 if same else i}_' + cls.__name__\n"
+            src += f"@dataclass\nclass B{i}(DataClassDictMixin):\n    x: int = 0\n"
+            m = rng.randint(1, 3)
+            nsub.append(m)
+            for j in range(m):
+                parent = f"B{i}" if j == 0 or rng.random() < 0.5 else f"B{i}S{j - 1}"
+                src += f"@dataclass\nclass B{i}S{j}({parent}):\n    pass\n"
+        fields = "".join(f"    f{i}: Annotated[B{i}, Discriminator(field='t', include_subtypes=True, variant_tagger_fn=tg{0 if same else i})]\n"
+                         for i in range(k))
+        src += f"@dataclass\nclass HD(DataClassDictMixin):\n{fields}"
+        targets = [rng.randrange(nsub[i]) for i in range(k)]
+        arg = {f"f{i}": {"t": f"p{0 if same else i}_B{i}S{targets[i]}"} for i in range(k)}
+        script = [{"op": "exec", "src": PREAMBLE}, {"op": "exec", "src": src}]
+        sb = Sandbox()
+        try:
+            exec(PREAMBLE, sb.ns)
+            exec(src, sb.ns)
+            # one call decodes all fields; on failure mashumaro names the first bad field
+            bad_i = None
+            obs_all = None
+            try:
+                r = sb.ns["HD"].from_dict(arg)
+                obs_all = [("inst", type(getattr(r, f"f{i}")).__name__) for i in range(k)]
+            except Exception as e:  # noqa: BLE001 - classified below
+                fname = getattr(e, "field_name", None)
+                bad_i = int(fname[1:]) if isinstance(fname, str) and fname[1:].isdigit() else 0
+                bad_obs = (unwrap_exc(e),)
+            for i in range(k):
+                exp = ("inst", f"B{i}S{targets[i]}")
+                if bad_i is not None and i < bad_i:
+                    continue                      # decoded before the failing field: not observable
+                obs = bad_obs if bad_i is not None else obs_all[i]
+                ctx.count(("two-taggers", k, same, i, obs[0]))
+                ctx.hist("wiring", "holder-multi-tagger")
+                if obs != exp:
+                    step = {"op": "decode", "call": "HD.from_dict", "wrap": None, "input": arg[f"f{i}"], "arg": arg, "pick": f"f{i}"}
+                    # the finding: a later field is tagged with the FIRST field's function, so its own tag is unknown there
+                    kf = (not same) and i >= 1 and obs == ("notfound",)
+                    ctx.fail(f"HD.from_dict({arg}).f{i} -> {fmt(obs)}, expected {fmt(exp)} (field {i} of {k}, own variant_tagger_fn)",
+                             {"entry": "history", "script": script + [step], "failing_step": 2, "expected": fmt(exp), "observed": fmt(obs)},
+                             {"kind": "tagger-fn-name-collision" if kf else "field-dispatch", "wiring": "holder-multi-tagger"})
+                if bad_i is not None:
+                    break
+        finally:
+            sb.close()
+
+
+# ---------------------------------------------------------------------------
 # the check
 # ---------------------------------------------------------------------------
 
@@ -816,6 +882,9 @@ def run(ctx: vlib.Ctx):
         "level discriminator', C12_class_level_self_excluded); such histories still take part in the correspondence",
         "(X2) no-field mode through an Annotated holder over plain (non-mixin) dataclasses is generated only in the "
         "known-finding stream (finding C12/nofield-inherited-unpacker)",
+        "(X3) a holder with several discriminated fields that use DIFFERENT variant_tagger_fn objects is generated only in the "
+        "probe of known finding C12/tagger-fn-name-collision; the model has one tagger per site, which is what the code does "
+        "for codecs, Config roots and single-field holders",
         "inputs are mappings with hashable tags (non-mapping / unhashable inputs belong to C05)",
     ]
     ctx.trusted += [
@@ -955,6 +1024,9 @@ def run(ctx: vlib.Ctx):
             # itself (DESIGN 2.4 'model-stale'); the oracle above decides whether the property holds there
             ctx.notes.append("model-stale: DiscrKF (finding C12/nofield-inherited-unpacker) disagrees with the implementation: " + detail[:600])
         ctx.correspondence("kf-model-vs-impl", len(kcases), len(bad), detail)
+
+    # ---- several discriminated fields with different tagger functions in one holder
+    probe_two_taggers(ctx, ctx.budget(40, 400))
 
     # ---- remark: without uniqueness the answer depends on the history (not a violation: the property is silent)
     h = fixed_histories()[3]
